@@ -1089,18 +1089,42 @@ impl Signature {
 }
 
 /// The available hash algorithms.
-#[derive(
-    Debug, Clone, Hash, PartialEq, Eq, PartialOrd, Ord, Serialize, Deserialize,
-)]
+#[derive(Debug, Clone, Hash, PartialEq, Eq, PartialOrd, Ord)]
 pub enum HashAlgorithm {
     /// SHA256 as describe in [RFC-6234](https://tools.ietf.org/html/rfc6234)
-    #[serde(rename = "sha256")]
     Sha256,
     /// SHA512 as describe in [RFC-6234](https://tools.ietf.org/html/rfc6234)
-    #[serde(rename = "sha512")]
     Sha512,
     /// Placeholder for an unknown hash algorithm.
     Unknown(String),
+}
+
+// On the wire a hash algorithm is its name (it is the key of a digest map), also
+// when the name is not one this library can compute.
+impl Serialize for HashAlgorithm {
+    fn serialize<S>(&self, ser: S) -> ::std::result::Result<S::Ok, S::Error>
+    where
+        S: Serializer,
+    {
+        ser.serialize_str(match self {
+            HashAlgorithm::Sha256 => "sha256",
+            HashAlgorithm::Sha512 => "sha512",
+            HashAlgorithm::Unknown(name) => name,
+        })
+    }
+}
+
+impl<'de> Deserialize<'de> for HashAlgorithm {
+    fn deserialize<D: Deserializer<'de>>(
+        de: D,
+    ) -> ::std::result::Result<Self, D::Error> {
+        let name: String = Deserialize::deserialize(de)?;
+        Ok(match name.as_str() {
+            "sha256" => HashAlgorithm::Sha256,
+            "sha512" => HashAlgorithm::Sha512,
+            _ => HashAlgorithm::Unknown(name),
+        })
+    }
 }
 
 impl HashAlgorithm {
